@@ -54,7 +54,9 @@ def main(tier):
                 vals = gen_values(rng, dtype, len(js), cls)
             for j, b in zip(js, vals):
                 bits[j] = b
-        calls.append({"fn": "quantize_weight", "dtype": dtype, "shape": shape, "bits": bits, "qtype": qt, "axis": axis, "group_size": gs, "optimizer": None, "kinds": kinds})
+        calls.append({"fn": "quantize_weight", "layout": rng.choice([None, None, None, "transposed", "strided", "offset"]), "dtype": dtype, "shape": shape, "bits": bits, "qtype": qt, "axis": axis, "group_size": gs, "optimizer": None, "kinds": kinds})
+    for c_ in calls:
+        ck.count("layout", c_.get("layout") or "contiguous")
     res = ck.impl("numq", {"calls": calls}, timeout=2400)
     if isinstance(res, dict):
         ck.violation("implementation worker crashed: " + res.get("stderr", "")[-300:], {"stderr": res.get("stderr")})
